@@ -384,7 +384,7 @@ RUN_QUERIES = [dict(pkg=b["pkg"], kind="lib", binary_name=b["binary_id"], binary
                     platform="target", test=t) for b in RUN_BINARIES for t in b["tests"]]
 # identifier-shaped names only: the scripted test binaries are /bin/sh scripts, and sh does not
 # pass on variables whose names are not identifiers
-RUN_KEYS = ["C18V_FOO", "C18V_K", "C18V_e2", "C18V_Z"]
+RUN_KEYS = ["C18V_FOO", "C18V_K", "C18V_e2"]
 RUN_ATOMS = [0, 2, 5, 8, 9, 10, 15]   # all(), test(alpha), package(crate_a), deps, rdeps, kind(lib), platform(target)
 RESULT_CODE = dict(pass_=0, fail=2, badenv=3, execfail=3, timeout=4)
 
@@ -395,7 +395,7 @@ def gen_run_case(r):
     scripts = []
     for nm in names:
         kind = r.choices(["pass_", "fail", "badenv", "execfail", "timeout"], [70, 10, 12, 5, 3])[0]
-        lines = [f"{r.choice(RUN_KEYS)}={r.choice(['1', nm, 'a=b', 'x y', 'ü', ''])}"
+        lines = [f"{r.choice(RUN_KEYS)}={r.choice([nm, nm, nm + '=b', 'x y ' + nm, 'ü', ''])}"
                  for _ in range(r.randint(0, 3))]
         if kind == "badenv":
             lines.insert(r.randint(0, len(lines)),
@@ -471,8 +471,8 @@ def oracle_run(sc, res):
         if s_["kind"] == "badenv" and e[2] in (0, 1):
             return (f"script {nm!r} exits 0 but writes an environment file that is rejected "
                     f"({bytes(s_['env_bytes'])!r}); it is reported as a pass, "
-                    f"{len(tests_started)} tests start and run summary is {res['summary']!r}: every "
-                    f"variable it wrote is dropped and the run does not fail with 105 (F5)")
+                    f"{len(tests_started)} tests start and the run summary is {res['summary']!r} instead "
+                    f"of a setup-script failure (exit status 105)")
         want = RESULT_CODE[s_["kind"]]
         if (e[2] in (0, 1)) != (want == 0):
             return f"script {nm!r} ({s_['kind']}) is reported with result code {e[2]}"
@@ -705,7 +705,7 @@ def run(tier, seed):
     # ---- corr:scripts + oracle (hook H6) --------------------------------------------------------
     scenarios = []
     scenarios.extend(cp.get("scripts", []))
-    while len(scenarios) < (1500 if thorough else 220):
+    while len(scenarios) < (3000 if thorough else 220):
         scenarios.append(gen_scripts_case(r))
     distinct = check_scripts(chk, binary, scenarios, "c18s")
 
@@ -714,14 +714,14 @@ def run(tier, seed):
              b"A=1\r\nB=2\r\n", b"A=1\r", b"\r\n", b"=\n", b"A=1\nA=2\nA=3", b"\xff=1\n", b"A=\xc3\n",
              b"OK=1\nBAD=\xe2\x82\n", b"NEXTEST=1", b"nextest=1\n", b" NEXTEST=1\n"]
     files += [bytes(x) for x in cp.get("env_files", [])]
-    nfiles = 2500 if thorough else 400
+    nfiles = 6000 if thorough else 400
     while len(files) < nfiles:
         files.append(gen_env_file(r, malformed=r.random() < 0.45).encode("utf-8"))
     check_env_files(chk, binary, files, "c18e")
 
     # ---- real runs of the real runner over scripted scripts and scripted test binaries ---------
     runs = [F5_WITNESS] + list(cp.get("runs", []))
-    while len(runs) < (160 if thorough else 36):
+    while len(runs) < (240 if thorough else 36):
         runs.append(gen_run_case(r))
     check_runs(chk, binary, runs, "c18r")
 
@@ -800,6 +800,13 @@ def replay(path, seed):
                                          for k, v in sorted(want.items())]] if want is not None else [0, []])
         print("impl:", i, "documented:", want, "->", "accepts" if okay else "FAILS")
         return 0 if okay else 1
+    if isinstance(inp, dict) and "scripts" in inp and "rules" in inp:
+        res = vlib.run_impl(binary, "scripts", [run_impl_case(inp)])[0]
+        why = oracle_run(inp, res) if "events" in res else str(res)
+        print("impl:", json.dumps(dict(events=res.get("events"), log=res.get("log"), summary=res.get("summary")),
+                                  ensure_ascii=False))
+        print("oracle:", why or "accepts")
+        return 1 if why else 0
     if isinstance(inp, dict) and "rules" in inp:
         res = vlib.run_impl(binary, "scripts", [impl_case(inp)])[0]
         why = oracle_scripts(inp, res) if "enabled" in res else str(res)
